@@ -390,6 +390,22 @@ class Builtins:
         pre_a = self.ex.C.heap_array(pre, cq, fld.lit, k) if pre is not None else post_a
         return self.ex.ok(SBool(post_a == pre_a), st)
 
+    def b_spec_mem_opt(self, args, kw, st, fr):
+        "membership in a possibly empty concrete list / tuple or an abstract list"
+        L, x = args
+        if isinstance(L, (STuple, SList, SSet)):
+            items = L.items if not isinstance(L, SList) else st.lists[L.lid]
+            if not items:
+                return self.ex.ok(SBool(False), st)
+            return self.ex.C.contains(L, x, st, fr)
+        return self.ex.ok(SBool(self.ex.C.abs_mem(L, x, st)), st)
+
+    def b_spec_length_opt(self, args, kw, st, fr):
+        return self.b_len(args, kw, st, fr)
+
+    def b_spec_slack0(self, args, kw, st, fr):
+        return self.ex.ok(SInt(0), st)
+
     def b_spec_mem(self, args, kw, st, fr):
         L, x = args
         return self.ex.ok(SBool(self.ex.C.abs_mem(L, x, st)), st)
